@@ -20,6 +20,7 @@ impl EventGen for ReuseElement {
         // we later resolve those on the target element in the context
         // of any vars set by this.
         reuse_element.eval_attributes(context)?;
+        context.check_scope_vars(&self.0, &reuse_element)?;
 
         context.push_element(&reuse_element);
         let elref = reuse_element
@@ -41,9 +42,18 @@ impl EventGen for ReuseElement {
             })?;
         // expressions first, as everywhere else: a compound value such as
         // wh="{{$s * 2}} {{$s - 1}}" must not be split inside an expression
+        let template = instance_element.clone();
         instance_element.eval_attributes(context).inspect_err(|_| {
             context.pop_element();
         })?;
+        if instance_element.name == "g" {
+            // the attributes of a group instance are variables of its content
+            context
+                .check_scope_vars(&template, &instance_element)
+                .inspect_err(|_| {
+                    context.pop_element();
+                })?;
+        }
         instance_element.expand_compound_size();
         let instance_size = instance_element.size(context).inspect_err(|_| {
             context.pop_element();
